@@ -57,6 +57,17 @@ theorem sum_eq_zero_of_all (l : List Nat) (h : ∀ t, l.getD t 0 = 0) : l.sum = 
     simp at h0
     simp [ih this, h0]
 
+theorem idle_getD {s : Sys} (h : s.idle = true) : ∀ t, s.depth.getD t 0 = 0 := by
+  intro t
+  unfold Sys.idle at h
+  rw [List.all_eq_true] at h
+  by_cases hl : t < s.depth.length
+  · have := h (s.depth[t]) (List.getElem_mem hl)
+    simp [List.getD_eq_getElem?_getD, hl]
+    simpa using this
+  · have : s.depth.length ≤ t := Nat.le_of_not_lt hl
+    simp [List.getD_eq_getElem?_getD, List.getElem?_eq_none this]
+
 theorem getD_pos_lt (l : List Nat) (t : Nat) (h : 0 < l.getD t 0) : t < l.length := by
   by_cases hl : t < l.length
   · exact hl
@@ -215,24 +226,43 @@ theorem inv_step' {s s' : Sys} (h : Inv s) (a : Step) (hs : step s a = some s') 
     split at hs
     · cases hs; exact (inv_unwind h t _ (Nat.le_refl _)).1
     · cases hs
+  | external f =>
+    simp only [step] at hs
+    split at hs
+    · rename_i hidle
+      cases hs
+      have hz : s.refcount = 0 := by
+        rw [h.rc, sum_eq_zero_of_all s.depth (idle_getD hidle)]; rfl
+      have hp : s.patched = false := by
+        cases hp : s.patched with
+        | false => rfl
+        | true => have := h.patchedPos hp; omega
+      refine ⟨h.lenF, h.rc, ?_, ?_, ?_, ?_, h.noFail, ?_⟩
+      · intro hpos; have : 0 < s.refcount := hpos; omega
+      · intro hp'; have : s.patched = true := hp'; rw [hp] at this; cases this
+      · intro hp'; have : s.patched = true := hp'; rw [hp] at this; cases this
+      · intro _; rfl
+      · show (if f then some Entry.foreign else none) ≠ some Entry.ours
+        cases f <;> simp
+    · cases hs
 
 theorem step_len {s s' : Sys} (a : Step) (hs : step s a = some s') :
-    s'.depth.length = s.depth.length ∧ s'.orig = s.orig := by
+    s'.depth.length = s.depth.length ∧ ((∀ f, a ≠ Step.external f) → s'.orig = s.orig) := by
   cases a with
   | enter t =>
     simp only [step] at hs
     split at hs
-    · cases hs; exact ⟨len_enterStep _ _, orig_enterStep _ _⟩
+    · cases hs; exact ⟨len_enterStep _ _, fun _ => orig_enterStep _ _⟩
     · cases hs
   | exit t =>
     simp only [step] at hs
     split at hs
-    · cases hs; exact ⟨len_exitStep _ _, orig_exitStep _ _⟩
+    · cases hs; exact ⟨len_exitStep _ _, fun _ => orig_exitStep _ _⟩
     · cases hs
   | copyModule t =>
     simp only [step] at hs
     split at hs
-    · cases hs; unfold copyStep; split <;> exact ⟨rfl, rfl⟩
+    · cases hs; unfold copyStep; split <;> exact ⟨rfl, fun _ => rfl⟩
     · cases hs
   | raise t =>
     simp only [step] at hs
@@ -249,7 +279,12 @@ theorem step_len {s s' : Sys} (a : Step) (hs : step s a = some s') :
           have := ih (exitStep s t)
           exact ⟨by show (unwind (exitStep s t) t k).depth.length = _; rw [this.1, len_exitStep],
                  by show (unwind (exitStep s t) t k).orig = _; rw [this.2, orig_exitStep]⟩
-      exact this _ _
+      exact ⟨(this _ _).1, fun _ => (this _ _).2⟩
+    · cases hs
+  | external f =>
+    simp only [step] at hs
+    split at hs
+    · cases hs; exact ⟨rfl, fun hne => absurd rfl (hne f)⟩
     · cases hs
 
 /-! ### sequential execution -/
@@ -317,6 +352,7 @@ mutual
 theorem bal_deepI : ∀ v : Val, Bal (deepI v)
   | .atom => by simp [deepI]; exact Bal.nil
   | .module => by simp [deepI]; exact Bal.copy Bal.nil
+  | .bad => by simp [deepI]; exact Bal.raise
   | .list xs => by simp [deepI]; exact bal_deepIs xs
   | .inst dnc as pc => by
     simp only [deepI]
@@ -475,7 +511,113 @@ theorem exec_protect (v : Val) (t : Nat) (s : Sys) (h : Inv s) (ht : t < s.depth
   cases v with
   | atom => exact nilCase
   | module => exact nilCase
+  | bad => exact blockCase _ (bal_deepI _)
   | list xs => exact blockCase _ (bal_deepI _)
   | inst d a pc => exact blockCase _ (bal_deepI _)
+
+/-- Well-bracketed programs that never look up a module outside a block. -/
+inductive Bal0 : List Instr → Prop
+  | nil : Bal0 []
+  | raise {p} : Bal0 (Instr.raise :: p)
+  | block {p q} : Bal p → Bal0 q → Bal0 (Instr.enter :: (p ++ Instr.exit :: q))
+
+theorem Bal0.append {p q : List Instr} (hp : Bal0 p) (hq : Bal0 q) : Bal0 (p ++ q) := by
+  induction hp with
+  | nil => simpa using hq
+  | raise => exact Bal0.raise
+  | @block p1 q1 hp1 _ ih2 =>
+    have : Instr.enter :: (p1 ++ Instr.exit :: q1) ++ q = Instr.enter :: (p1 ++ Instr.exit :: (q1 ++ q)) := by
+      simp
+    rw [this]
+    exact Bal0.block hp1 ih2
+
+theorem bal0_wrap (v : Val) {b : List Instr} (hb : Bal b) : Bal0 (wrapProtect v b) := by
+  unfold wrapProtect
+  split
+  · exact Bal0.nil
+  · exact Bal0.nil
+  · have := Bal0.block hb Bal0.nil
+    simpa using this
+
+theorem bal0_attrsI : ∀ as : Attrs, Bal0 (attrsI as)
+  | .nil => by simp [attrsI]; exact Bal0.nil
+  | .cons dnc v rest => by
+    simp only [attrsI]
+    apply Bal0.append _ (bal0_attrsI rest)
+    split
+    · exact Bal0.nil
+    · exact bal0_wrap v (bal_deepI v)
+
+mutual
+theorem bal0_deepI : ∀ v : Val, guardedV v = true → Bal0 (deepI v)
+  | .atom, _ => by simp [deepI]; exact Bal0.nil
+  | .module, h => by simp [guardedV] at h
+  | .bad, _ => by simp [deepI]; exact Bal0.raise
+  | .list xs, h => by simp only [deepI]; exact bal0_deepIs xs (by simpa [guardedV] using h)
+  | .inst dnc as pc, _ => by
+    simp only [deepI]
+    split
+    · exact Bal0.nil
+    · apply Bal0.append (bal0_attrsI as)
+      split
+      · exact Bal0.raise
+      · exact Bal0.nil
+theorem bal0_deepIs : ∀ vs : Vals, guardedVs vs = true → Bal0 (deepIs vs)
+  | .nil, _ => by simp [deepIs]; exact Bal0.nil
+  | .cons v vs, h => by
+    simp only [guardedVs, Bool.and_eq_true] at h
+    simp only [deepIs]
+    exact Bal0.append (bal0_deepI v h.1) (bal0_deepIs vs h.2)
+end
+
+/-- Running a `Bal0` program from ANY depth (in particular from outside every block). -/
+theorem exec_bal0 {p : List Instr} (hb : Bal0 p) (t : Nat) :
+    ∀ (s : Sys), Inv s → t < s.depth.length → Post t s (execSeq t p s) := by
+  induction hb with
+  | nil => intro s h _; exact ⟨h, rfl, rfl, fun _ _ => rfl, fun _ => rfl, by simp [execSeq]⟩
+  | @raise p =>
+    intro s h _
+    obtain ⟨a, b, c, d, e⟩ := inv_unwind h t (s.depthOf t) (Nat.le_refl _)
+    have : execSeq t (Instr.raise :: p) s = (unwind s t (s.depthOf t), false) := by
+      simp [execSeq, seqStep]
+    rw [this]
+    exact ⟨a, d, e, c, by simp, fun _ => by rw [b]; omega⟩
+  | @block p q hp hq ihq =>
+    intro s h ht
+    obtain ⟨de, dother⟩ := depth_enterStep s t ht
+    have h1 : Inv (enterStep s t) := inv_enterStep h ht
+    have hd1 : 0 < (enterStep s t).depthOf t := by rw [de]; omega
+    have A := exec_bal_pos hp t (enterStep s t) h1 hd1
+    have hexec : execSeq t (Instr.enter :: (p ++ Instr.exit :: q)) s =
+        match execSeq t p (enterStep s t) with
+        | (s2, true) => execSeq t (Instr.exit :: q) s2
+        | (s2, false) => (s2, false) := by
+      simp only [execSeq, seqStep]
+      exact execSeq_append t p (Instr.exit :: q) (enterStep s t)
+    rw [hexec]
+    rcases hr : execSeq t p (enterStep s t) with ⟨s2, b⟩
+    rw [hr] at A
+    cases b with
+    | false =>
+      simp only
+      exact ⟨A.inv, by rw [A.len, len_enterStep], by rw [A.orig, orig_enterStep],
+        fun t' hne => by rw [A.others t' hne, dother t' hne], by simp, A.abort⟩
+    | true =>
+      simp only
+      have hd2 : s2.depthOf t = s.depthOf t + 1 := by rw [A.done rfl, de]
+      have hpos2 : 0 < s2.depthOf t := by omega
+      obtain ⟨h3, hke⟩ := inv_exitStep A.inv hpos2
+      obtain ⟨dx, dxo⟩ := depth_exitStep s2 t hpos2
+      have hf : (exitStep s2 t).failedOf t = false := h3.noFail t
+      have hstep : execSeq t (Instr.exit :: q) s2 = execSeq t q (exitStep s2 t) := by
+        simp [execSeq, seqStep, hf]
+      rw [hstep]
+      have hd3 : (exitStep s2 t).depthOf t = s.depthOf t := by rw [dx, hd2]; omega
+      have hl3 : t < (exitStep s2 t).depth.length := by rw [len_exitStep, A.len, len_enterStep]; exact ht
+      have B := ihq (exitStep s2 t) h3 hl3
+      exact ⟨B.inv, by rw [B.len, len_exitStep, A.len, len_enterStep],
+        by rw [B.orig, orig_exitStep, A.orig, orig_enterStep],
+        fun t' hne => by rw [B.others t' hne, dxo t' hne, A.others t' hne, dother t' hne],
+        fun hb => by rw [B.done hb, hd3], B.abort⟩
 
 end SpecVerif.C20
